@@ -1534,7 +1534,25 @@ class DiameterMessage:
 
 
     def __setitem__(self, idx: int, value: DiameterAVP) -> None:
-        self._avps[idx] = value
+        if not isinstance(value, DiameterAVP):
+            raise DiameterMessageError(f"cannot assign a data type of "\
+                                       f"'{type(value)}'")
+
+        #: Replaces the DiameterAVP object in position `idx`. The attribute 
+        #: of the replaced object and the Diameter Message Length field follow
+        #: the change, as they do for pop() and append().
+        idx = range(len(self._avps))[idx]
+        old_avp = self._avps[idx]
+
+        for avp_key, item in list(self.__dict__.items()):
+            if item is old_avp:
+                self.pop(avp_key)
+                break
+        else:
+            del self._avps[idx]
+
+        self.append(value)
+        self._avps.insert(idx, self._avps.pop())
 
 
     @property
